@@ -1,6 +1,7 @@
 (* Print family (C24 C25 C27): characters, the model-tree type of hy.models,
    the interpreter oracles.  Stdlib only. *)
 From HyV Require Export Base.Text.
+From HyV Require Export Gen.PrintTables.
 From Coq Require Export ZArith.
 
 (* ---------------------------------------------------------------- characters *)
@@ -14,10 +15,10 @@ Definition c_rb : N := 93.    Definition c_caret : N := 94. Definition c_bq : N 
 Definition c_lc : N := 123.   Definition c_rc : N := 125.  Definition c_tilde : N := 126.
 Definition c_N : N := 78.
 
-(* hy/reader/reader.py _whitespace : " \t\n\r\f\v" *)
-Definition is_ws (c : N) : bool := mem c [32; 9; 10; 13; 12; 11].
-(* HyReader.NON_IDENT : ()[]{};"'`~ *)
-Definition non_ident (c : N) : bool := mem c [40; 41; 91; 93; 123; 125; 59; 34; 39; 96; 126].
+(* hy/reader/reader.py _whitespace : space \t \n \r \f \v *)
+Definition is_ws (c : N) : bool := mem c rd_whitespace.
+(* HyReader.NON_IDENT : ( ) [ ] { } ; dquote quote backquote tilde *)
+Definition non_ident (c : N) : bool := mem c rd_non_ident.
 Definition ends_ident (c : N) : bool := is_ws c || non_ident c.
 
 (* ---------------------------------------------------------------- floats *)
